@@ -14,39 +14,91 @@ import (
 	"github.com/ChainSafe/sygma-relayer/relayer/transfer"
 	"github.com/ChainSafe/sygma-relayer/store"
 	"github.com/syndtr/goleveldb/leveldb"
+	lerrors "github.com/syndtr/goleveldb/leveldb/errors"
+	lstorage "github.com/syndtr/goleveldb/leveldb/storage"
 )
 
 // c3DB: in-memory KeyValueReaderWriter. The i-th call (reads and writes share one counter) fails iff
-// faults[i] == '1'. Every successful write is logged (`<nonce>:<status letter>`).
+// faults[i] != '0'; the letter selects the KIND of error the database returns (c3ErrOf): a generic error, or one of
+// goleveldb's sentinels / a corruption error, plain (lower case) or wrapped with %w (upper case). A leading 'W' makes
+// the database report absent keys with a WRAPPED leveldb.ErrNotFound. Every successful write is logged.
 type c3DB struct {
 	mu     sync.Mutex
 	m      map[string]string
 	faults string
+	wrapNF bool
 	calls  int
 	writes []string
 }
 
-func newC3DB(faults string) *c3DB {
+func c3SplitFaults(faults string) (string, bool) {
 	if faults == "-" {
 		faults = ""
 	}
-	return &c3DB{m: map[string]string{}, faults: faults}
+	if strings.HasPrefix(faults, "W") {
+		return faults[1:], true
+	}
+	return faults, false
 }
 
-func (d *c3DB) fail() bool {
+func newC3DB(faults string) *c3DB {
+	f, w := c3SplitFaults(faults)
+	return &c3DB{m: map[string]string{}, faults: f, wrapNF: w}
+}
+
+// c3FaultKinds: every letter that means "this call fails" in a fault script (ErrNotFound is not among them: on a
+// read it means "absent", see op propstatus)
+const c3FaultKinds = "1cCrRsSiIkK"
+
+// c3ErrOf maps a fault letter to the error value the fake database returns.
+func c3ErrOf(c byte) error {
+	var base error
+	switch c {
+	case '0':
+		return nil
+	case '1':
+		return errors.New("db call failed")
+	case 'n', 'N':
+		base = leveldb.ErrNotFound
+	case 'c', 'C':
+		base = leveldb.ErrClosed
+	case 'r', 'R':
+		base = leveldb.ErrReadOnly
+	case 's', 'S':
+		base = leveldb.ErrSnapshotReleased
+	case 'i', 'I':
+		base = leveldb.ErrIterReleased
+	case 'k', 'K':
+		base = lerrors.NewErrCorrupted(lstorage.FileDesc{Type: lstorage.TypeTable, Num: 7}, errors.New("bad block"))
+	default:
+		panic("bad fault letter " + string(c))
+	}
+	if c >= 'A' && c <= 'Z' {
+		return fmt.Errorf("status store: %w", base)
+	}
+	return base
+}
+
+func (d *c3DB) fault() error {
 	i := d.calls
 	d.calls++
-	return i < len(d.faults) && d.faults[i] == '1'
+	if i >= len(d.faults) {
+		return nil
+	}
+	return c3ErrOf(d.faults[i])
 }
 
 func (d *c3DB) GetByKey(key []byte) ([]byte, error) {
 	d.mu.Lock()
 	defer d.mu.Unlock()
-	if d.fail() {
-		return nil, errors.New("db read failed")
+	if err := d.fault(); err != nil {
+		return nil, err
 	}
 	v, ok := d.m[string(key)]
 	if !ok {
+		if d.wrapNF {
+			return nil, fmt.Errorf("get %s: %w", key, leveldb.ErrNotFound)
+		}
 		return nil, leveldb.ErrNotFound
 	}
 	return []byte(v), nil
@@ -55,8 +107,8 @@ func (d *c3DB) GetByKey(key []byte) ([]byte, error) {
 func (d *c3DB) SetByKey(key []byte, value []byte) error {
 	d.mu.Lock()
 	defer d.mu.Unlock()
-	if d.fail() {
-		return errors.New("db write failed")
+	if err := d.fault(); err != nil {
+		return err
 	}
 	d.m[string(key)] = string(value)
 	// key = source:%d:destination:%d:depositNonce:%d
@@ -88,10 +140,7 @@ func (d *c3DB) letter(src, dst uint8, nonce uint64) string {
 func (d *c3DB) setFaults(f string) {
 	d.mu.Lock()
 	defer d.mu.Unlock()
-	if f == "-" {
-		f = ""
-	}
-	d.faults = f
+	d.faults, d.wrapNF = c3SplitFaults(f)
 	d.calls = 0
 }
 
@@ -216,4 +265,21 @@ func c3Ret(err error) string {
 		return "err"
 	}
 	return "nil"
+}
+
+// c3FaultLetter: a random failing kind (generic half of the time), c3Wrap: a random 'W' prefix
+func c3FaultLetter(g *G) byte {
+	if g.Intn(2) == 0 {
+		return '1'
+	}
+	return c3FaultKinds[g.Intn(len(c3FaultKinds))]
+}
+
+// c3SingleFault: no failure in the first k calls, then one failure of a kind chosen by the seeded generator
+func c3SingleFault(g *G, k int) string {
+	p := ""
+	if g.Intn(3) == 0 {
+		p = "W"
+	}
+	return p + strings.Repeat("0", k) + string(c3FaultLetter(g))
 }
